@@ -503,13 +503,8 @@ func genericOK(fd *ast.FuncDecl) bool {
 	if fd.Type.TypeParams == nil {
 		return true
 	}
-	if fd.Recv != nil {
-		return false
-	}
-	if fd.Type.Results != nil && mentionsTypeParam(fd.Type.Results, fd.Type.TypeParams) {
-		return false
-	}
-	return !mentionsTypeParam(fd.Body, fd.Type.TypeParams)
+	// a generic function (not a method): its type parameters become local aliases of the call's type arguments
+	return fd.Recv == nil
 }
 
 func mentionsTypeParam(n ast.Node, tps *ast.FieldList) bool {
@@ -527,6 +522,56 @@ func mentionsTypeParam(n ast.Node, tps *ast.FieldList) bool {
 		return !found
 	})
 	return found
+}
+
+// typeToExpr writes a type as syntax valid in file: basic types, named types of this package or of a package the file
+// imports (the import is added when missing), pointers, slices, arrays and maps of those.
+func (in *inliner) typeToExpr(t types.Type, file *ast.File) (ast.Expr, bool) {
+	switch x := t.(type) {
+	case *types.Basic:
+		return ast.NewIdent(x.Name()), true
+	case *types.Pointer:
+		e, ok := in.typeToExpr(x.Elem(), file)
+		return &ast.StarExpr{X: e}, ok
+	case *types.Slice:
+		e, ok := in.typeToExpr(x.Elem(), file)
+		return &ast.ArrayType{Elt: e}, ok
+	case *types.Map:
+		k, ok1 := in.typeToExpr(x.Key(), file)
+		v, ok2 := in.typeToExpr(x.Elem(), file)
+		return &ast.MapType{Key: k, Value: v}, ok1 && ok2
+	case *types.Named:
+		if x.TypeArgs() != nil && x.TypeArgs().Len() > 0 {
+			return nil, false
+		}
+		obj := x.Obj()
+		if obj.Pkg() == nil {
+			return ast.NewIdent(obj.Name()), true // error
+		}
+		if obj.Pkg() == in.pk.Types {
+			if obj.Parent() != in.pk.Types.Scope() {
+				return nil, false // a local type
+			}
+			return ast.NewIdent(obj.Name()), true
+		}
+		path := obj.Pkg().Path()
+		for _, im := range file.Imports {
+			if strings.Trim(im.Path.Value, `"`) == path {
+				name := obj.Pkg().Name()
+				if im.Name != nil {
+					name = im.Name.Name
+				}
+				if name == "_" || name == "." {
+					return nil, false
+				}
+				return &ast.SelectorExpr{X: ast.NewIdent(name), Sel: ast.NewIdent(obj.Name())}, true
+			}
+		}
+		return nil, false
+	case *types.Alias:
+		return in.typeToExpr(types.Unalias(x), file)
+	}
+	return nil, false
 }
 
 func hasVariadic(ft *ast.FuncType) bool {
@@ -1277,6 +1322,40 @@ func (in *inliner) expandT(ce *ast.CallExpr, assign *ast.AssignStmt, tok token.T
 	in.seq++
 	tag := fmt.Sprintf("_inl%d", in.seq)
 	ren := map[types.Object]string{}
+	var aliasDecls []ast.Stmt
+	if c.decl != nil && c.decl.Type.TypeParams != nil {
+		var funId *ast.Ident
+		switch f := ce.Fun.(type) {
+		case *ast.Ident:
+			funId = f
+		case *ast.SelectorExpr:
+			funId = f.Sel
+		}
+		inst, ok := in.info.Instances[funId]
+		if funId == nil || !ok || inst.TypeArgs == nil {
+			return nil, false
+		}
+		k := 0
+		for _, f := range c.decl.Type.TypeParams.List {
+			for _, nm := range f.Names {
+				if k >= inst.TypeArgs.Len() {
+					return nil, false
+				}
+				te, ok := in.typeToExpr(inst.TypeArgs.At(k), file)
+				if !ok {
+					return nil, false
+				}
+				o := in.info.Defs[nm]
+				if o == nil {
+					return nil, false
+				}
+				ren[o] = nm.Name + tag
+				aliasDecls = append(aliasDecls, &ast.DeclStmt{Decl: &ast.GenDecl{Tok: token.TYPE, Specs: []ast.Spec{
+					&ast.TypeSpec{Name: ast.NewIdent(nm.Name + tag), Assign: ce.Pos(), Type: te}}}})
+				k++
+			}
+		}
+	}
 	var pre []ast.Stmt   // declarations placed before the block (result temporaries)
 	var bind []ast.Stmt  // inside the block, before the body
 	var lhs, rhs []ast.Expr
@@ -1329,7 +1408,7 @@ func (in *inliner) expandT(ce *ast.CallExpr, assign *ast.AssignStmt, tok token.T
 						name = nm.Name + tag
 					}
 				}
-				if c.decl != nil && c.decl.Type.TypeParams != nil && mentionsTypeParam(f.Type, c.decl.Type.TypeParams) {
+				if false {
 					// a parameter of a generic helper whose type names a type parameter takes its type from the
 					// argument (genericOK made sure the body and the results do not name type parameters)
 					for _, a := range ce.Args {
@@ -1345,7 +1424,7 @@ func (in *inliner) expandT(ce *ast.CallExpr, assign *ast.AssignStmt, tok token.T
 					ai++
 					continue
 				}
-				bind = append(bind, varDecl(name, copyNode(f.Type, nil, nil).(ast.Expr), f.Type.End()))
+				bind = append(bind, varDecl(name, copyNode(f.Type, ren, in.info).(ast.Expr), f.Type.End()))
 				lhs = append(lhs, ast.NewIdent(name))
 				rhs = append(rhs, ce.Args[ai])
 				ai++
@@ -1387,7 +1466,7 @@ func (in *inliner) expandT(ce *ast.CallExpr, assign *ast.AssignStmt, tok token.T
 					declare = false // results go straight to the caller's return
 				}
 				if declare {
-					vd := varDecl(tmp, copyNode(f.Type, nil, nil).(ast.Expr), f.Type.End())
+					vd := varDecl(tmp, copyNode(f.Type, ren, in.info).(ast.Expr), f.Type.End())
 					if th != nil && k < len(th.resIdents) && th.resIdents[k] != nil {
 						// the caller's own identifier declares the variable (its object stays attached to it)
 						vd.(*ast.DeclStmt).Decl.(*ast.GenDecl).Specs[0].(*ast.ValueSpec).Names[0] = th.resIdents[k]
@@ -1403,7 +1482,7 @@ func (in *inliner) expandT(ce *ast.CallExpr, assign *ast.AssignStmt, tok token.T
 					}
 					nn := nm.Name + tag
 					named = append(named, nn)
-					bind = append(bind, varDecl(nn, copyNode(f.Type, nil, nil).(ast.Expr), f.Type.End()))
+					bind = append(bind, varDecl(nn, copyNode(f.Type, ren, in.info).(ast.Expr), f.Type.End()))
 					bind = append(bind, &ast.AssignStmt{Lhs: []ast.Expr{ast.NewIdent("_")}, Tok: token.ASSIGN, Rhs: []ast.Expr{ast.NewIdent(nn)}})
 				} else {
 					named = append(named, "")
@@ -1460,6 +1539,7 @@ func (in *inliner) expandT(ce *ast.CallExpr, assign *ast.AssignStmt, tok token.T
 		inner = &ast.LabeledStmt{Label: ast.NewIdent(label), Stmt: &ast.ForStmt{Body: body}}
 	}
 	blk := &ast.BlockStmt{Lbrace: ce.Pos(), List: []ast.Stmt{inner}, Rbrace: ce.End()}
+	pre = append(aliasDecls, pre...)
 	out := append(pre, blk)
 	if tail {
 		c.done++
